@@ -202,6 +202,41 @@ fn k_marg_errors() {
 //     differ only in cell 0 and cell n-1 give bit-identical results.
 // BOUNDED in shape (listed per harness).
 
+/// `Strides::flat_index` by its contract (row-major position, None unless lengths agree and every index is in
+/// range) -- checked against the real function by the K-index harnesses; used as a CONTRACT STUB where a harness
+/// indexes a spectrum many times
+pub(crate) fn flat_index_by_definition<I: AsRef<[usize]>>(st: &crate::array::shape::Strides, shape: &Shape, index: I) -> Option<usize> {
+    let idx = index.as_ref();
+    let d = shape.0.len();
+    if st.0.len() != d || idx.len() != d {
+        return None;
+    }
+    let mut flat = 0usize;
+    let mut k = 0;
+    while k < d {
+        if idx[k] >= shape.0[k] {
+            return None;
+        }
+        flat = flat * shape.0[k] + idx[k];
+        k += 1;
+    }
+    Some(flat)
+}
+
+/// `Shape::index_from_flat_unchecked` by its contract (row-major unflattening), checked by K-index
+pub(crate) fn index_from_flat_by_definition(shape: &Shape, flat: usize) -> Vec<usize> {
+    let d = shape.0.len();
+    let mut idx = vec![0usize; d];
+    let mut rem = flat;
+    let mut j = d;
+    while j > 0 {
+        j -= 1;
+        idx[j] = rem % shape.0[j];
+        rem /= shape.0[j];
+    }
+    idx
+}
+
 /// stub for f64::sqrt (CBMC models sqrt by a constraint system that dominates the run time): any value.
 /// Only used where the *value* of a statistic is not asserted (totality, non-interference by two runs
 /// is NOT compatible with this stub and does not use it).
@@ -290,6 +325,7 @@ stats_total!(k_stat_total_2d_1x3, [1, 3]);
 stats_total!(k_stat_total_2d_2x1, [2, 1]);
 stats_total!(k_stat_total_2d_2x2, [2, 2]);
 stats_total!(k_stat_total_2d_3x3, [3, 3]);
+
 stats_total!(k_stat_total_3d_1x1x1, [1, 1, 1]);
 stats_total!(k_stat_total_3d_2x1x2, [2, 1, 2]);
 stats_total!(k_stat_total_4d_1x1x1x1, [1, 1, 1, 1]);
